@@ -11,7 +11,7 @@ ID = "C19"
 META = {
     "technique": "runtime monitoring: instance-level wrappers on StochasticNetwork.plugin / unplug / post_charging_update inside real simulations; after each call returns (quiescent point) an invariant walker reads get_ev for every station, the waiting queue and the counters and compares them with a shadow model (placement map + FIFO list) updated from the call arguments and the observed station choice only; reproducibility decided by re-running with the same random seed",
     "design_ref": "DESIGN.md section 6 C19",
-    "level_text": "exploration: thousands (quick) / hundreds of thousands (thorough) of simulated histories with more simultaneous sessions than stations, simultaneous departures of connected and waiting EVs, tiny and unfillable requests, early_departure on/off, three scheduler kinds, many random seeds per history; every plugin/unplug/post-update call is followed by the full invariant walk; early_departure given as bool / numpy bool / int / attribute; verbose runs; half of the networks built without mentioning early_departure; a sixth of the runs with warnings turned into errors (a raising call must leave nobody lost or doubled); second runs on the network object of the first",
+    "level_text": "exploration: thousands (quick) / hundreds of thousands (thorough) of simulated histories with more simultaneous sessions than stations, simultaneous departures of connected and waiting EVs, tiny and unfillable requests, early_departure on/off, three scheduler kinds, many random seeds per history; every plugin/unplug/post-update call is followed by the full invariant walk; early_departure given as bool / numpy bool / int / attribute; verbose runs; half of the networks built without mentioning early_departure; a sixth of the runs with warnings turned into errors (a raising call must leave nobody lost or doubled); second runs on the network object of the first; a car of the user's own EV class that refuses to wait",
     "level_note": "the station chosen for an arriving EV is read back from the network (it is the only nondeterminism) and must be one the shadow model knows to be free; which freed station an admitted waiter takes is not prescribed beyond 'a station freed by that departure'; 'fully charged' = requested - delivered <= 1e-3 kWh with a 1e-9 guard",
 }
 LEVEL = "exploration"
